@@ -73,3 +73,25 @@ Proof.
   rewrite top_newline. reflexivity.
 Qed.
 Print Assumptions b_cenum_ok.
+
+(* ... and a union whose members are documented *)
+Require Import Bebop.front.TyUDoc.
+Definition gcunion_of (cmt : bytes) (oc : N) (nm : bytes) (bl : list cubranch) : union_ :=
+  {| un_name := nm; un_comment := cmt; un_fields := map cub_field bl; un_opcode := oc |}.
+Definition b_cunion (nm : ident) (bl : list club) : gbase :=
+  {| gb_toks := it_toks (cu_item nm bl); gb_need := it_need (cu_item nm bl); gb_fneed := it_fneed (cu_item nm bl);
+     gb_upd := fun cmt oc f => add_union f (gcunion_of cmt oc (ibytes nm) (map bcub bl)); gb_text := it_text (cu_item nm bl); gb_opc0 := false |}.
+Lemma b_cunion_ok nm bl : ident_ok nm -> Forall club_ok bl -> cubs_ok [] (map bcub bl) -> bl <> [] -> gbase_ok (b_cunion nm bl) (cu_x nm bl).
+Proof.
+  intros Hn Hf Hu Hne. apply (gbase_from_item (cu_item nm bl) (cu_x nm bl) (b_cunion nm bl) (cu_item_ok nm bl Hn Hf Hu Hne)); try reflexivity.
+  intros cm opc g f tail c _. cbn [b_cunion gb_need gb_toks gb_upd cu_item it_need it_toks].
+  exists (cusum (map bcub bl) + S (S g)). split; [lia|].
+  replace (cusum (map bcub bl) + 4 + g) with (S (cusum (map bcub bl) + S (S (S g)))) by lia. unfold cunion_toks.
+  change ([unionT; idT (ibytes nm); openT; nlT] ++ cubs_toks (map bcub bl) ++ [closeT; nlT])
+    with ([unionT] ++ ([idT (ibytes nm); openT; nlT] ++ cubs_toks (map bcub bl) ++ [closeT] ++ [nlT])).
+  rewrite res_app, top_union_head_gen. unfold bind.
+  replace ([idT (ibytes nm); openT; nlT] ++ cubs_toks (map bcub bl) ++ [closeT] ++ [nlT])
+    with (([idT (ibytes nm); openT; nlT] ++ cubs_toks (map bcub bl) ++ [closeT]) ++ [nlT]) by (rewrite <- !app_assoc; reflexivity).
+  rewrite res_app, (read_cunion_ok (ibytes nm) (map bcub bl) (S g) _ _ Hu). cbn [un_name un_fields cunion_of].
+  replace (cusum (map bcub bl) + S (S (S g))) with (S (cusum (map bcub bl) + S (S g))) by lia. rewrite top_newline. reflexivity.
+Qed.
